@@ -6,7 +6,7 @@
  * Enumerated: all labels of 1-2 (thorough 3) symbols over 32 letters/digits of 8 scripts + {a,1,-}, domains of 1-3 such
  * labels x 4 suffixes; every IDN TLD row in U and A form; negative families.
  */
-#include "../mc/mc.h"
+#include "corpus.h"
 #include "../ref/ref_idn.h"
 #include "../ref/ref_tld.h"
 #include <eav.h>
@@ -19,21 +19,23 @@ static const char *MN[4] = { "822", "5321", "5322", "6531" };
 
 typedef struct { int rc, v4, v6, dom, idn; } out_t;
 static out_t run(int m, const char *d, int tld) {
-    char buf[1200]; int n = snprintf(buf, sizeof buf, "x@%s", d);
+    char buf[4200]; int n = snprintf(buf, sizeof buf, "x@%s", d);
     eav_result_t *r = EMAIL[m](buf, (size_t)n, tld);
     out_t o = { r->rc, r->is_ipv4, r->is_ipv6, r->is_domain, r->idn_rc };
     eav_result_free(r); MC_ADD(C_EVAL, 1);
     return o;
 }
 
+static const char *g_pred;
 static void check_idn(const char *sub, const char *u) {
-    size_t n = strlen(u); if (n == 0 || n > 1000) return;
+    size_t n = strlen(u); if (n == 0 || n > 3900) return;
     mc_current(sub, "", u, n); MC_ADD(C_CASES, 1);
     int ascii = 1; for (size_t i = 0; i < n; i++) if ((unsigned char)u[i] >= 0x80) ascii = 0;
     char *a = NULL;
     int r = idn2_to_ascii_8z(u, &a, IDN2_NONTRANSITIONAL);
     for (int tld = 0; tld < 2; tld++) {
         char cfg[32]; snprintf(cfg, sizeof cfg, "tld=%d", tld);
+        if (g_pred) (void)run(3, g_pred, tld);      /* hidden state: the spelling under test directly follows another mode-6531 validation */
         out_t ou = run(3, u, tld);
         if (r != IDN2_OK) {
             if (!tld) MC_ADD(C_CONV_FAIL, 1);
@@ -162,9 +164,38 @@ static void neg_shard(long shard, void *arg) {
     }
 }
 
+static int L5PH;
+static void l5_emit(const unsigned char *s, size_t n, void *arg) { (void)arg; if (n > 2 && n < 3900 && s[0] == 'x' && s[1] == '@' && !memchr(s + 2, 0, n - 2)) { char d[4000]; memcpy(d, s + 2, n - 2); d[n - 2] = 0; check_idn("corpus", d); MC_ADD(C_NEG, 1); } }
+static void l5_shard(long shard, void *arg) { (void)arg; corpus_run(L5PH, shard, l5_emit, NULL); }
+
+/* every ordered pair of a family of long domains that share their first >= 255 bytes (and of short domains of equal length):
+ * the U-label spelling is validated right after the other member, then compared with its own A-label spelling as usual */
+static char FAM[3][16][1200]; static int NFAM[3];
+static void build_families(void) {
+    static const char *const T[] = { "com", "zzzzq", "\xd1\x80\xd1\x84", "\xd0\xbc\xd0\xbe\xd1\x81\xd0\xba\xd0\xb2\xd0\xb0", "\xe2\x99\xa5", "a\xff", "org", "-a", "example", "ac", "abarth" };
+    for (int pl = 0; pl < 3; pl++) {
+        char P[900]; int l = 0; int per = 30 + pl * 10, nl = 5 - pl;
+        for (int k = 0; k < nl; k++) { for (int i = 0; i < per; i++) { P[l++] = (char)0xd0; P[l++] = (char)(0xb0 + (i + 3 * k) % 16); } P[l++] = '.'; }
+        P[l] = 0;
+        for (unsigned t = 0; t < sizeof T / sizeof T[0]; t++) snprintf(FAM[pl][NFAM[pl]++], 1200, "%s%s", P, T[t]);
+    }
+}
+static void pair_shard(long shard, void *arg) {
+    (void)arg; int pl = (int)(shard / 16), i = (int)(shard % 16); if (i >= NFAM[pl]) return;
+    for (int j = 0; j < NFAM[pl]; j++) { g_pred = FAM[pl][i]; check_idn("pair", FAM[pl][j]); g_pred = NULL; MC_ADD(C_NEG, 1); }
+}
+static void shortpair_shard(long shard, void *arg) {
+    (void)arg; static const char AL[] = "abcdefghijklmnopqrstuvwxyz0123456789"; char p[16], d[16];
+    snprintf(p, sizeof p, "b.%c%c", AL[shard / 36], AL[shard % 36]);
+    for (int a = 0; a < 36; a++) for (int b = 0; b < 36; b++) { snprintf(d, sizeof d, "b.%c%c", AL[a], AL[b]); g_pred = p; check_idn("shortpair", d); g_pred = NULL; MC_ADD(C_NEG, 1); }
+}
+
 static int do_replay(void) {
     mc_replay_t r; if (mc_load_replay(mc_replay, &r)) return 2;
     mc_replay_hit = 0; char d[MC_CASEMAX + 1]; memcpy(d, r.in, (size_t)r.len); d[r.len] = 0; check_idn(r.sub, d);
+    if (!mc_replay_hit && !strcmp(r.sub, "pair")) for (int pl = 0; pl < 3; pl++) for (int i = 0; i < NFAM[pl] && !mc_replay_hit; i++) { g_pred = FAM[pl][i]; check_idn(r.sub, d); g_pred = NULL; }
+    if (!mc_replay_hit && !strcmp(r.sub, "shortpair")) { static const char AL[] = "abcdefghijklmnopqrstuvwxyz0123456789"; char p[16];
+        for (int a = 0; a < 36 && !mc_replay_hit; a++) for (int b = 0; b < 36 && !mc_replay_hit; b++) { snprintf(p, sizeof p, "b.%c%c", AL[a], AL[b]); g_pred = p; check_idn(r.sub, d); g_pred = NULL; } }
     printf("replay %s: %s\n", mc_replay, mc_replay_hit ? "VIOLATION reproduced" : "no violation");
     return mc_replay_hit ? 1 : 0;
 }
@@ -176,7 +207,13 @@ int main(int argc, char **argv) {
     if (rt_load()) return 2;
     char p[1024]; snprintf(p, sizeof p, "%s/data/raw.csv", rt_repo()); if (rt_read_csv(p, &RAW, 1)) return 2;
     build_labels(mc_thorough ? 3 : 2);
+    build_families();
     if (mc_replay) return do_replay();
+    if (corpus_load()) return 2;
+    { static const int PH[] = { CP_LONGIDN, CP_ALTDOT, CP_LABELLEN };
+      for (unsigned i = 0; i < 3; i++) { L5PH = PH[i]; char nm5[80]; snprintf(nm5, sizeof nm5, "corpus: %.60s", corpus_name(L5PH)); mc_parallel(nm5, corpus_shards(L5PH), l5_shard, NULL); } }
+    mc_parallel("pairs: every ordered pair of long domains sharing a >= 255-byte prefix, second one right after the first", 48, pair_shard, NULL);
+    mc_parallel("pairs: every ordered pair of the 1296 domains b.XY, second one right after the first", 1296, shortpair_shard, NULL);
     mc_parallel("negatives: every 2-byte pattern inside a label, symbol/hyphen/length families", 256, neg_shard, NULL);
     mc_parallel("every table row as last label of an ASCII domain; IDN TLD rows in U- and A-form", RAW.n < RT_PUNY.n ? RAW.n : RT_PUNY.n, tld_shard, NULL);
     memset(&EA, 0, sizeof EA); EA.A = SIGA; EA.nA = 7; EA.N = mc_thorough ? 7 : 6; EA.k = 2; EA.fn = ascii_cb;
